@@ -750,6 +750,131 @@ def rand_flat(rng, eng, nmax=12):
     return flat_expr(seq, pl, suffixes_at=sl)
 
 
+def chain_tree(orc, ops, operands):
+    """the tree the table dictates for `x0 ops[0] x1 ops[1] ...` when all ops belong to ONE group and every operand is
+    closed against that group: left-deep or right-deep, as the group is declared - for every length"""
+    if orc.group_left(orc.bin_group(ops[0])):
+        t = operands[0]
+        for op, x in zip(ops, operands[1:]):
+            t = ['bin', op, None, t, x]
+        return t
+    t = operands[-1]
+    for op, x in zip(reversed(ops), reversed(operands[:-1])):
+        t = ['bin', op, None, x, t]
+    return t
+
+
+CHAIN_LENGTHS = [(9, 9), (10, 12), (13, 17), (18, 33), (34, 64)]
+
+
+def long_chains(rng, eng, orc, per_op=3, lengths=CHAIN_LENGTHS):
+    """LONG flat chains (>= 9 operands) of every binary operator of the table in force: one operator repeated, operators
+    of one group mixed; bare, under a prefix operator, in parentheses / argument lists / index expressions, with tighter
+    or looser operators at the ends, with parenthesised sub-chains as operands.  Yields (text, dictated tree or None):
+    the tree is given where it can be written down directly (all operands closed)."""
+    t = eng.table
+    syms = [s for s in t if s not in ('[]', '{}')]
+    bins = [s for s in syms if t[s][1]]
+    pres = [s for s in syms if t[s][0] > 0]
+    sufs = [s for s in syms if t[s][0] < 0]
+    by_group = {}
+    for s in bins:
+        by_group.setdefault(abs(t[s][1]), []).append(s)
+    n_leaf = len(LEAVES)
+    for s in bins:
+        mates = by_group[abs(t[s][1])]
+        picks = rng.sample(lengths, min(per_op, len(lengths)))
+        if (9, 9) not in picks and rng.random() < 0.5:
+            picks[0] = (9, 9)
+        for k, (lo, hi) in enumerate(picks):
+            n = rng.randint(lo, hi)
+            ops = [s] * (n - 1) if k % 2 == 0 or len(mates) < 2 else [rng.choice(mates) for _ in range(n - 1)]
+            off = rng.randrange(n_leaf)
+            leaves = [LEAVES[(off + i) % n_leaf] for i in range(n)]
+            words = [x for _, x in leaves]
+            tree = None
+            if orc is not None and not eng.ambiguous:
+                try:
+                    tree = chain_tree(orc, ops, [x for x, _ in leaves])
+                except NotApplicable:
+                    tree = None
+            q = rng.random()
+            if q < 0.3:
+                # parenthesised sub-chains and stacked prefix / suffix operators on some operands
+                tree = None
+                for i in range(n):
+                    r = rng.random()
+                    if r < 0.12:
+                        m = rng.randint(2, 4)
+                        words[i] = '( ' + (' %s ' % rng.choice(mates)).join(rng.choice(OPERANDS) for _ in range(m)) + ' )'
+                    elif r < 0.2 and pres:
+                        words[i] = rng.choice(pres) + ' ' + words[i]
+                    elif r < 0.26 and sufs:
+                        words[i] = words[i] + ' ' + rng.choice(sufs)
+            parts = [words[0]]
+            for op, w in zip(ops, words[1:]):
+                parts += [op, w]
+            body = ' '.join(parts)
+            q = rng.random()
+            if q < 0.3:
+                yield body, tree
+                continue
+            tree_in = tree
+            tree = None
+            if q < 0.42 and pres:
+                yield rng.choice(pres) + ' ' + body, None
+            elif q < 0.52:
+                yield '( ' + body + ' )', (['wrap', tree_in] if tree_in is not None else None)
+            elif q < 0.60:
+                yield 'f( ' + body + ' , ' + body + ' )', None
+            elif q < 0.68:
+                yield '$a [ ' + body + ' ]', None
+            elif q < 0.74 and eng.delegates:
+                yield 'b ( ' + body + ' )', None
+            elif q < 0.80:
+                yield '[ 1 , ' + body + ' ]', None
+            else:
+                # other operators (tighter, looser, same group) at the ends
+                a, b = rng.choice(bins), rng.choice(bins)
+                w = rng.random()
+                if w < 0.35:
+                    yield "$b %s %s" % (a, body), None
+                elif w < 0.7:
+                    yield "%s %s 's'" % (body, b), None
+                else:
+                    yield "$b %s %s %s 's'" % (a, body, b), None
+
+
+def add_symbol_roles(b, family):
+    """every operator of the list is usable in every role it is declared in: the smallest trees (operator over leaves, and
+    under / over one standard neighbour) are dictated, so their spelling must come back as exactly these trees"""
+    orc = b.oracle
+    if orc is None or b.eng.ambiguous:
+        return
+    la, lb, lc = LEAVES[0][0], LEAVES[1][0], LEAVES[3][0]
+    for s, (up, bp, _aliases) in orc.t.items():
+        if s in ('[]', '{}'):
+            continue
+        trees = []
+        if bp:
+            trees += [['bin', s, None, la, lb], ['bin', s, None, ['wrap', ['bin', s, None, la, lb]], lc],
+                      ['bin', s, None, la, ['wrap', ['bin', s, None, lb, lc]]], ['list', ['bin', s, None, lc, la]]]
+        if up:
+            trees += [['un', s, None, la], ['un', s, None, ['wrap', ['un', s, None, lc]]], ['wrap', ['un', s, None, lb]]]
+        if up and bp:
+            trees += [['bin', s, None, la, ['wrap', ['un', s, None, lb]]]]
+        for t in trees:
+            b.add_tree(t, family)
+
+
+def add_long_chains(b, rng, family, per_op=3, lengths=CHAIN_LENGTHS):
+    for text, tree in long_chains(rng, b.eng, b.oracle, per_op, lengths):
+        if tree is not None:
+            b.add_tree(tree, family)
+        else:
+            b.add(text, family)
+
+
 def mutate(rng, eng, text):
     """token-level damage: delete / insert / replace one word"""
     syms = [s for s in eng.table if s not in ('[]', '{}')]
@@ -776,7 +901,11 @@ def soup(rng, eng, nmax):
 # custom tables
 SYMBOL_POOL = ['!', '!!', '~', '**', '==', '<>', '|', '||', '&', '&&', 'xor', 'is', 'div', '@', '%', '^', '-->',
                '>>', '<<', '?', ':', '..', '...', 'isnt', 'then', '=>>', '<-', '-', '+', '*', '/', 'not', 'and', '=',
-               '<', '.', '->', 'in', '#', '+++', '?..', '=~~']
+               '<', '.', '->', 'in', '#', '+++', '?..', '=~~'] + [
+    # identifier-shaped operator words: with underscores, digits, capitals (the lexer reads them with its keyword rule and
+    # has to find them in the operator table exactly as spelled)
+    'not_in', 'is_set', 'div2', 'starts_with', 'x_1', 'Is', 'AND', 'Not', 'mod2', '_in', 'in_', 'b2b', 'isNull', 'Xor_2',
+    '_', 'o0']
 
 
 def group_of_record(records, idx):
@@ -1324,6 +1453,10 @@ def run(env, res):
             b.add(soup(rng, e, rng.choice([3, 5, 8, 14])), 'soup')
         for _ in range(n_rand):
             b.add_random_tree(rng, rng.choice([2, 3, 3, 4]), 'dictated_trees')
+        # long chains: every binary operator of the table, 9 .. 64 operands (a few up to 150)
+        add_long_chains(b, rng, 'long_chains', per_op=5 if thorough else 4)
+        add_long_chains(b, rng, 'long_chains', per_op=1, lengths=[(65, 150)])
+        add_symbol_roles(b, 'symbol_roles')
         finish_batch(b)
 
     # 3. custom tables
@@ -1373,6 +1506,8 @@ def run(env, res):
             for other in syms:
                 for text in pair_texts(e, ns, other):
                     b.add(text, 'custom_pairs')
+        add_long_chains(b, rng, 'custom_long_chains', per_op=2)
+        add_symbol_roles(b, 'custom_symbol_roles')
         finish_batch(b)
         if len([f for f in res.failures if f.key != KNOWN_SUFFIX_KEY]) >= 8:
             break
@@ -1399,6 +1534,15 @@ def run(env, res):
         ('default', False, [dict(ex='-', bin=True, sym='--', ty=OT.BINARY_LEFT_ASSOCIATIVE, cg=False, alias=None, created=True),
                             dict(ex='*', bin=True, sym='div', ty=OT.BINARY_LEFT_ASSOCIATIVE, cg=False, alias=None, created=True),
                             dict(ex='not', bin=False, sym='++', ty=OT.PREFIX_UNARY, cg=False, alias=None)]))
+    # identifier-shaped operator words with underscores / digits / capitals in every role, on each kind of engine
+    for kind, delegates in (('default', False), ('default', True), ('legacy', False)):
+        probes.append((kind, delegates, [
+            dict(ex='in', bin=True, sym='not_in', ty=OT.BINARY_LEFT_ASSOCIATIVE, cg=False, alias=None, created=kind == 'legacy'),
+            dict(ex='not', bin=False, sym='is_set', ty=OT.PREFIX_UNARY, cg=False, alias='isset'),
+            dict(ex='*', bin=True, sym='div2', ty=OT.BINARY_LEFT_ASSOCIATIVE, cg=False, alias=None),
+            dict(ex='or', bin=True, sym='Or_Else', ty=OT.BINARY_RIGHT_ASSOCIATIVE, cg=True, alias=None),
+            dict(ex=None, bin=True, sym='is_null', ty=OT.SUFFIX_UNARY, cg=True, alias=None),
+            dict(ex='->', bin=True, sym='x2', ty=OT.SUFFIX_UNARY, cg=True, alias=None)]))
     for kind, delegates, ins in probes:
         try:
             e = Eng(kind, delegates, ins)
@@ -1417,6 +1561,8 @@ def run(env, res):
             b.add(rand_flat(rng, e, 6), 'probe_flat')
             b.add(rand_expr(rng, e, 3), 'probe_forms')
             b.add_random_tree(rng, 3, 'probe_dictated_trees')
+        add_long_chains(b, rng, 'probe_long_chains', per_op=3)
+        add_symbol_roles(b, 'probe_symbol_roles')
         finish_batch(b)
 
     # 4. a fixed probe: a suffix operator that shares its symbol with a binary operator
